@@ -526,6 +526,9 @@ structure Facts where
   /-- `GetOrBuildBucket` publishes the bucket in flight, then snapshots, builds, drains; `OnInsert` /
       `OnUpdate` / `OnDelete` buffer while in flight and apply otherwise -/
   bucketLifecycleStandard : Tri
+  /-- `applyTimeRange` (bucket route) and `findTimeRangeBounds` (scan route) convert the window bounds
+      to int64 nanoseconds the same way (both through `WindowNanos`, or both by a bare `UnixNano()`) -/
+  windowConversionAlike : Tri
   deriving Repr
 
 def cfgOf (f : Facts) : Cfg := {
@@ -551,6 +554,7 @@ def unknownFact (f : Facts) : Option String :=
       f.scanPagingAfterFilter, f.labelReattach, f.pagedQueriesBypass, f.bucketChecksAttr, f.lookupInDedupes, f.unionDedupes,
       f.bucketWindowTimeOnly].any (· == .unknown) then some "a fact of GetByIndexStream / bucket_exec / bucket" else
   if !f.bucketLifecycleStandard.isYes then some "GetOrBuildBucket / OnInsert / OnUpdate / OnDelete shape" else
+  if !f.windowConversionAlike.isYes then some "window bound conversion of applyTimeRange vs findTimeRangeBounds" else
   if [f.bucketNotifyInsert, f.bucketNotifyUpdate, f.bucketNotifyDelete, f.bucketPendingReplayed, f.readerDrainsInFlight].any (· == .unknown) then
     some "a bucket notification of SaveFunction / deleteHandler / DrainPending" else
   none
